@@ -58,6 +58,25 @@ theorem pile_is_chain {F : Forest} (h : wf F = true) {i : Nat} (hi : i < F.lengt
     Linked F (pile F i) ∧ (pile F i).Pairwise (· < ·) ∧ (pile F i).Nodup ∧ i ∈ pile F i :=
   ⟨pile_linked h hi, pile_sorted h hi, pile_nodup h hi, mem_pile_self F i⟩
 
+/-- when the transition is not a forced re-entry (the piles really fork: `left` and `arrived` start with
+different boxes), the boxes left are exactly the active boxes that are NOT in the destination pile and the boxes
+arrived at are exactly the destination-pile boxes that are NOT active: nothing below the fork is shared. -/
+theorem fork_separates_piles {F : Forest} (h : wf F = true) {a d : Nat} (ha : a < F.length) (hd : d < F.length)
+    {kept left arrived : List Nat} (h1 : pile F a = kept ++ left) (h2 : pile F d = kept ++ arrived)
+    (hne : left.head? ≠ arrived.head?) (hl : left ≠ []) (hr : arrived ≠ []) :
+    (∀ x ∈ left, x ∉ pile F d) ∧ (∀ x ∈ arrived, x ∉ pile F a) := by
+  obtain ⟨l0, t1, rfl⟩ := List.exists_cons_of_ne_nil hl
+  obtain ⟨r0, t2, rfl⟩ := List.exists_cons_of_ne_nil hr
+  have hne' : l0 ≠ r0 := by intro hh; apply hne; simp [hh]
+  have ra := pile_rootLinked h ha
+  have rd := pile_rootLinked h hd
+  have na := pile_nodup h ha
+  have nd := pile_nodup h hd
+  rw [h1] at ra na
+  rw [h2] at rd nd
+  rw [h1, h2]
+  exact ⟨fork_disjoint ra rd na hne', fork_disjoint rd ra nd (Ne.symm hne')⟩
+
 /-! ## an accepted transition -/
 
 /-- `transition_trace`: when the scan of the active pile accepts a transition to `d` (a goact fired and the
@@ -225,19 +244,23 @@ theorem first_entry_top_down (F : Forest) (first k endat : Nat) :
 
 /-! ## the translator's tables: statement-level facts of boxing.py the model relies on -/
 
-theorem gen_run_unpacks_exen_in_return_order :
-    Hio.Gen.runUnpack = ["exdos", "endos", "rexdos", "rendos"] ∧
-    Hio.Gen.exenReturn = ["list(reversed(nears[i:]))", "fars[i:]", "list(reversed(nears[:i]))", "fars[:i]"] := by
-  decide
+/-- `run()` hands the components of `exen`'s result to the matching phases: component 0 (`reversed(nears[i:])`)
+to `exdo`, 2 (`reversed(nears[:i])`) to `rexdo` inside the transition block; 3 (`fars[:i]`) to `rendo`, 1
+(`fars[i:]`) to `endo`, then `redo`, after the scan — the order `transitEvents` assumes -/
+theorem gen_run_feeds_exen_lists_to_matching_phases :
+    Hio.Gen.exenReturn = ["rev-nears-from-i", "fars-from-i", "rev-nears-to-i", "fars-to-i"] ∧
+    Hio.Gen.runTransitCalls = ["exdo<-0", "rexdo<-2"] ∧
+    Hio.Gen.runAfterScanCalls = ["rendo<-3", "endo<-1", "redo"] := by decide
 
-theorem gen_run_uses_active_pile : Hio.Gen.runExenArgs = ["self.box", "dest"] := by decide
+/-- `run()` calls `exen` with the ACTIVE box (whose pile is the active pile), as `scanGos` does -/
+theorem gen_run_uses_active_pile : Hio.Gen.runExenNear = "active-box" := by decide
 
-theorem gen_run_phase_order :
-    Hio.Gen.runTransitCalls = ["self.exdo(exdos)", "self.rexdo(rexdos)"] ∧
-    Hio.Gen.runAfterScanCalls = ["self.rendo(rendos)", "self.endo(endos)", "self.redo()"] ∧
+/-- `Box.rendo` runs remarks then renacts, `Box.endo` enmarks then enacts, as `boxRendo` / `boxEndo` do -/
+theorem gen_box_entry_loops :
     Hio.Gen.boxRendoLoops = ["remarks", "renacts"] ∧ Hio.Gen.boxEndoLoops = ["enmarks", "enacts"] := by decide
 
-theorem gen_end_exits_reversed_pile : Hio.Gen.endCalls = ["self.exdo(list(reversed(self.box.pile)))"] := by decide
+/-- `end()` hands the REVERSED active pile to `exdo`, as `endPass` does -/
+theorem gen_end_exits_reversed_pile : Hio.Gen.endCalls = ["exdo<-rev-active-pile"] := by decide
 
 /-! ## non-vacuity: concrete boxworks satisfying the hypotheses -/
 
@@ -252,6 +275,7 @@ example : pile exF 0 = [0, 1, 2] ∧ pile exF 3 = [0, 1, 3] ∧ pile exF 4 = [0,
 /-- an accepted transition (hypothesis of `transition_trace`) -/
 example : ∃ ev q, scanPile exF 2 2 (pile exF 2) = .go ev 3 q ∧ q = ⟨[2], [3], [1, 0], [0, 1]⟩ := by
   refine ⟨_, _, rfl, ?_⟩; decide
+example : pile exF 2 = [0, 1] ++ [2] ∧ pile exF 3 = [0, 1] ++ [3] ∧ ([2] : List Nat).head? ≠ [3].head? := by decide
 /-- a fired goact whose destination's precondition fails, then a second goact accepted in the same pass -/
 example : ∃ ev, scanPile exF 3 3 (pile exF 3) = .stay ev := ⟨_, rfl⟩
 example : ∃ ev q, scanPile exF 4 3 (pile exF 3) = .go ev 2 q := ⟨_, _, rfl⟩
